@@ -401,7 +401,7 @@ SUBS = [
         "bruteforce",
         st_case(7, 7, local_maxlen=6),
         run_bruteforce,
-        quick=6400,
+        quick=4800,
         thorough=200000,
         rule="both sequences >= 2 symbols and (an optimal alignment has a gap or > 1 optimal alignment), optimum from enumeration of all alignments",
         clauses="score == optimum; traces valid; recomputed score == reported == align.score(); distinct; <= max_number; member of the optimal set",
